@@ -470,6 +470,35 @@ Theorem zero_addon_cumulative a : a_capex a == 0 -> a_opex a == 0 -> a_egain a =
   Forall2 Qeq (running (addon_project_cashflow a)) (running (base_project_cashflow a)).
 Proof. intros. unfold running. apply running_from_ext; [now apply zero_addon_project_cashflow | reflexivity]. Qed.
 
+(* ... and the same payback period: the payback loop only compares and combines values, so it respects == *)
+Lemma Qle_bool_ext a a' b b' : a == a' -> b == b' -> Qle_bool a b = Qle_bool a' b'.
+Proof.
+  intros Ha Hb. destruct (Qle_bool a b) eqn:E1, (Qle_bool a' b') eqn:E2; try reflexivity.
+  - apply Qle_bool_iff in E1. rewrite Ha, Hb in E1. apply Qle_bool_iff in E1. congruence.
+  - apply Qle_bool_iff in E2. rewrite <- Ha, <- Hb in E2. apply Qle_bool_iff in E2. congruence.
+Qed.
+Lemma payback_loop_ext : forall l l', Forall2 Qeq l l' -> forall p p' i acc acc', p == p' -> acc == acc' ->
+  payback_loop p i l acc == payback_loop p' i l' acc'.
+Proof.
+  intros l l' H. induction H as [|x y l l' Hxy _ IH]; intros p p' i acc acc' Hp Ha; simpl; [assumption|].
+  apply IH; [assumption|].
+  unfold Qltb, Qleb. rewrite (Qle_bool_ext x y 0 0 Hxy (Qeq_refl 0)), (Qle_bool_ext p p' 0 0 Hp (Qeq_refl 0)).
+  destruct (negb (Qle_bool y 0) && Qle_bool p' 0); [|assumption].
+  now rewrite Hp, Hxy.
+Qed.
+Lemma last_ext : forall l l', Forall2 Qeq l l' -> forall d d', d == d' -> last l d == last l' d'.
+Proof.
+  intros l l' H. induction H as [|x y l l' Hxy Hl IH]; intros d d' Hd; [assumption|].
+  destruct Hl as [|u v l l' Huv Hl]; [assumption|]. change (last (u :: l) d == last (v :: l') d'). now apply IH.
+Qed.
+Lemma payback_ext cum cum' : Forall2 Qeq cum cum' -> payback cum == payback cum'.
+Proof.
+  intros H. unfold payback. apply payback_loop_ext; [assumption | | reflexivity]. apply last_ext; [assumption | reflexivity].
+Qed.
+Theorem zero_addon_payback a : a_capex a == 0 -> a_opex a == 0 -> a_egain a == 0 -> a_hgain a == 0 -> a_profit a == 0 ->
+  payback (running (addon_project_cashflow a)) == payback (running (base_project_cashflow a)).
+Proof. intros. apply payback_ext. now apply zero_addon_cumulative. Qed.
+
 (* homogeneity of the code's own (vector) computation, through C01 *)
 Lemma teq_sym a b : teq a b -> teq b a.
 Proof. unfold teq. intros (H1 & H2 & H3). repeat split; symmetry; assumption. Qed.
